@@ -5,6 +5,7 @@ import (
 	"bytes"
 	"encoding/json"
 	"fmt"
+	"os"
 	"strings"
 	"testing"
 
@@ -21,6 +22,33 @@ func init() {
 	harness.RegisterReplay("adts", harness.Replayer(checkADTS))
 	harness.RegisterReplay("adtsjunk", harness.Replayer(checkADTSJunk))
 	harness.RegisterReplay("aacentry", harness.Replayer(checkAACEntry))
+	harness.RegisterReplay("adtsvariant", harness.Replayer(checkADTSVariant))
+	harness.RegisterReplay("aacentrybox", harness.Replayer(checkEntryBox))
+	// development aid: VERIF_C18_NOAVOID=all or a comma-separated list of switch names
+	if v := os.Getenv("VERIF_C18_NOAVOID"); v == "all" {
+		avoidKnown = map[string]bool{}
+	} else if v != "" {
+		for _, name := range strings.Split(v, ",") {
+			delete(avoidKnown, name)
+		}
+	}
+}
+
+// avoidKnown lists library behaviours that contradict the property on the unchanged tree; the relation
+// concerned is skipped (and counted with harness.Rec.Exclude(name)) so that the enumeration continues
+// behind it. A case carrying "noAvoid": true (the parked reproducers) is judged in full.
+var avoidKnown = map[string]bool{
+	// ADTSHeader.Frequency() returns uint16(FrequencyTable[idx]): 96000 (index 0) comes back as 30464 and
+	// 88200 (index 1) as 22664; every other table frequency fits in 16 bits.
+	"adts-frequency-uint16": true,
+}
+
+func avoid(noAvoid bool, name string) bool {
+	if noAvoid || !avoidKnown[name] {
+		return false
+	}
+	harness.Rec.Exclude(name)
+	return true
 }
 
 func TestReplay(t *testing.T) { harness.ReplayPath(t) }
@@ -130,6 +158,14 @@ func boundaryFreqs() []int {
 	}
 	add(0)
 	add(1<<24 - 1)
+	// 256 further explicit frequencies spread over the 24-bit range by a fixed LCG (the thorough tier
+	// enumerates all 2^24; this gives the quick tier values that are no neighbour of a power of two or of a
+	// table frequency)
+	lcg := uint32(0x2545f491)
+	for i := 0; i < 256; i++ {
+		lcg = lcg*1664525 + 1013904223
+		add(int(lcg >> 8))
+	}
 	out := []int{}
 	for v := 0; v < 1<<24; v++ {
 		if set[v] {
@@ -146,6 +182,27 @@ func isTable(f int) bool {
 		}
 	}
 	return false
+}
+
+// forEachBoundaryASC: boundary set x all 16 channel configurations x all three object types (x boundary ext freq)
+func forEachBoundaryASC(fr []int, run func(ascCase)) {
+	for _, f := range fr {
+		for ch := 0; ch < 16; ch++ {
+			run(ascCase{ObjectType: 2, Freq: f, Channels: byte(ch)})
+		}
+	}
+	for _, ot := range []byte{5, 29} {
+		for _, f := range fr {
+			for _, ef := range fr {
+				for ch := 0; ch < 16; ch++ {
+					if !harness.Thorough() && ch%5 != int(ot)%5 && !(isTable(f) && isTable(ef)) {
+						continue // quick: all channels only for table x table; one channel class otherwise
+					}
+					run(ascCase{ObjectType: ot, Freq: f, ExtFreq: ef, Channels: byte(ch)})
+				}
+			}
+		}
+	}
 }
 
 func TestASC(t *testing.T) {
@@ -171,25 +228,8 @@ func TestASC(t *testing.T) {
 			bad++
 		}
 	}
-	// boundary set x all 16 channel configurations x all three object types (x boundary ext freq)
-	for _, f := range fr {
-		for ch := 0; ch < 16; ch++ {
-			run(ascCase{ObjectType: 2, Freq: f, Channels: byte(ch)})
-		}
-	}
-	for _, ot := range []byte{5, 29} {
-		for _, f := range fr {
-			for _, ef := range fr {
-				for ch := 0; ch < 16; ch++ {
-					if !harness.Thorough() && ch%5 != int(ot)%5 && !(isTable(f) && isTable(ef)) {
-						continue // quick: all channels only for table x table; one channel class otherwise
-					}
-					run(ascCase{ObjectType: ot, Freq: f, ExtFreq: ef, Channels: byte(ch)})
-				}
-			}
-		}
-	}
-	harness.Rec.Exhaustive("ASC: {2,5,29} x boundary/table frequencies (x ext) x 16 channel configurations")
+	forEachBoundaryASC(fr, run)
+	harness.Rec.Exhaustive("ASC: {2,5,29} x boundary/table/256 LCG-spread frequencies (x ext) x 16 channel configurations")
 	if harness.Thorough() {
 		// every 24-bit explicit frequency
 		for f := 0; f < 1<<24; f++ {
@@ -210,6 +250,7 @@ type adtsCase struct {
 	Channels   byte   `json:"channels"`
 	PayloadLen uint16 `json:"payload_len"`
 	Fullness   uint16 `json:"fullness"`
+	NoAvoid    bool   `json:"noAvoid,omitempty"`
 }
 
 // refADTS: ISO/IEC 13818-7 adts_fixed_header + adts_variable_header, MPEG-4 id, no CRC, one raw block.
@@ -247,6 +288,14 @@ func checkADTS(c adtsCase) *harness.Fail {
 	if *got != h {
 		return harness.Failf("C18|adts|roundtrip-mismatch", "Decode(Encode(%+v)=%x) = %+v", h, enc, *got)
 	}
+	// "Frequency looks up the sampling frequency for index in ADTSHeader": ISO/IEC 13818-7 Table 35 /
+	// 14496-3 Table 1.18 for the 13 defined indices
+	if c.FreqIdx < 13 {
+		want := tableFreqs[c.FreqIdx]
+		if fq := int(got.Frequency()); fq != want && !(want > 0xffff && fq == want&0xffff && avoid(c.NoAvoid, "adts-frequency-uint16")) {
+			return harness.Failf("C18|adts|frequency-lookup", "sampling_frequency_index %d: Frequency() = %d, table says %d", c.FreqIdx, fq, want)
+		}
+	}
 	// the public constructor (AAC-LC, variable bit rate) builds the same header for every table frequency and
 	// every payload length of the domain
 	if c.ObjectType == aac.AAClc && c.Fullness == 0x7ff {
@@ -266,6 +315,70 @@ func checkADTS(c adtsCase) *harness.Fail {
 	return nil
 }
 
+// adtsVariantCase: the reference header with another ID / protection_absent combination in byte 1
+// (ISO/IEC 13818-7 6.2.1 adts_fixed_header: syncword 12 bits, ID 1 bit (1 = MPEG-2, 0 = MPEG-4), layer 2 bits
+// '00', protection_absent 1 bit). With protection_absent = 0 adts_error_check() (crc_check, 16 bits) follows
+// the variable header and aac_frame_length counts it: header length 9.
+type adtsVariantCase struct {
+	Hdr   adtsCase `json:"hdr"`
+	Byte1 byte     `json:"byte1"` // 0xf0 MPEG-4 + CRC, 0xf8 MPEG-2 + CRC, 0xf9 MPEG-2 without CRC (0xf1 = the encoder's own form)
+	CRC   uint16   `json:"crc"`   // crc_check value (not verified by the library; no payload is supplied)
+}
+
+func (c adtsVariantCase) bytes() ([]byte, bool) {
+	b := refADTS(c.Hdr)
+	b[1] = c.Byte1
+	if c.Byte1&1 == 0 {
+		fl := uint32(c.Hdr.PayloadLen) + 9
+		if fl > 0x1fff {
+			return nil, false // not representable in 13 bits
+		}
+		b[3] = b[3]&0xfc | byte(fl>>11)
+		b[4] = byte(fl >> 3)
+		b[5] = byte(fl&7)<<5 | b[5]&0x1f
+		b = append(b, byte(c.CRC>>8), byte(c.CRC))
+	}
+	return b, true
+}
+
+func checkADTSVariant(c adtsVariantCase) *harness.Fail {
+	b, ok := c.bytes()
+	if !ok || c.Byte1&0xf6 != 0xf0 {
+		return harness.Failf("harness|c18|bad-case", "%+v", c)
+	}
+	want, ok := refParse(b)
+	wantLen := byte(7)
+	if c.Byte1&1 == 0 {
+		wantLen = 9
+	}
+	if !ok || want.HeaderLength != wantLen || want.PayloadLength != c.Hdr.PayloadLen || want.ID != (c.Byte1>>3)&1 ||
+		want.ObjectType != c.Hdr.ObjectType || want.SamplingFrequencyIndex != c.Hdr.FreqIdx || want.ChannelConfig != c.Hdr.Channels || want.BufferFullness != c.Hdr.Fullness {
+		return harness.Failf("harness|c18|reference parser disagrees with reference serialiser", "%x -> %+v for %+v", b, want, c)
+	}
+	got, off, err := aac.DecodeADTSHeader(bytes.NewReader(b))
+	if err != nil {
+		return harness.Failf("C18|adtsvariant|decode-error", "Decode(%x) (%+v): %v", b, c, err)
+	}
+	if off != 0 {
+		return harness.Failf("C18|adtsvariant|offset", "Decode(%x) offset %d, want 0", b, off)
+	}
+	if *got != want {
+		return harness.Failf("C18|adtsvariant|header", "Decode(%x) = %+v, reference parse %+v", b, *got, want)
+	}
+	// a stream that ends inside the CRC is not a complete header
+	if c.Byte1&1 == 0 {
+		if g, _, err := aac.DecodeADTSHeader(bytes.NewReader(b[:8])); err == nil {
+			return harness.Failf("C18|adtsvariant|header cut inside crc_check accepted", "Decode(%x) = %+v", b[:8], *g)
+		}
+	}
+	return nil
+}
+
+var adtsVariants = []struct {
+	b1   byte
+	name string
+}{{0xf0, "adts-variant-mpeg4-crc"}, {0xf8, "adts-variant-mpeg2-crc"}, {0xf9, "adts-variant-mpeg2-nocrc"}}
+
 func TestADTS(t *testing.T) {
 	fulls := []uint16{0, 1, 0x3ff, 0x7ff}
 	if harness.Thorough() {
@@ -273,6 +386,12 @@ func TestADTS(t *testing.T) {
 	}
 	idx := 0
 	bad := 0
+	var nvar [3]int64
+	defer func() {
+		for vi, v := range adtsVariants {
+			harness.Rec.BulkDistinct(nvar[vi], nvar[vi], v.name)
+		}
+	}()
 	for ot := byte(1); ot <= 4; ot++ {
 		for fi := byte(0); fi < 16; fi++ {
 			for ch := byte(0); ch < 8; ch++ {
@@ -285,7 +404,7 @@ func TestADTS(t *testing.T) {
 						if !harness.Thorough() && fu != 0x7ff && pl%64 != int(fu)%64 {
 							continue
 						}
-						c := adtsCase{ot, fi, ch, uint16(pl), fu}
+						c := adtsCase{ObjectType: ot, FreqIdx: fi, Channels: ch, PayloadLen: uint16(pl), Fullness: fu}
 						if f := checkADTS(c); f != nil {
 							if harness.ReportDirect(t, "adts", c, f) {
 								bad++
@@ -295,6 +414,19 @@ func TestADTS(t *testing.T) {
 							return
 						}
 					}
+					if pl%64 == 0 {
+						// CRC-protected and MPEG-2 forms of the same header
+						for vi, v := range adtsVariants {
+							vc := adtsVariantCase{Hdr: adtsCase{ObjectType: ot, FreqIdx: fi, Channels: ch, PayloadLen: uint16(pl), Fullness: fulls[(pl/64+vi)%len(fulls)]},
+								Byte1: v.b1, CRC: []uint16{0, 0xffff, 0xfff1, 0x1234}[(pl/64)%4]}
+							nvar[vi]++
+							if f := harness.Guarded(func() *harness.Fail { return checkADTSVariant(vc) }); f != nil {
+								if harness.ReportDirect(t, "adtsvariant", vc, f) {
+									bad++
+								}
+							}
+						}
+					}
 				}
 				n := int64(8185 * len(fulls))
 				if !harness.Thorough() {
@@ -302,7 +434,7 @@ func TestADTS(t *testing.T) {
 				}
 				harness.Rec.BulkDistinct(n, n, fmt.Sprintf("adts-objtype%d", ot))
 				if harness.Rec.WantSample() {
-					c := adtsCase{ot, fi, ch, 8184, 0x7ff}
+					c := adtsCase{ObjectType: ot, FreqIdx: fi, Channels: ch, PayloadLen: 8184, Fullness: 0x7ff}
 					harness.Rec.Sample(map[string]interface{}{"kind": "adts", "case": c, "bytes": fmt.Sprintf("%x", refADTS(c))})
 				}
 			}
@@ -386,7 +518,7 @@ func checkADTSJunk(c junkCase) *harness.Fail {
 
 func TestADTSJunk(t *testing.T) {
 	// reduced header set x every junk length 0..187 x fill patterns
-	hdrs := []adtsCase{{2, 3, 2, 0, 0x7ff}, {2, 4, 1, 371, 0x7ff}, {1, 0, 7, 8184, 0}, {4, 15, 0, 1, 0x3ff}, {3, 11, 6, 4095, 1}}
+	hdrs := []adtsCase{{2, 3, 2, 0, 0x7ff, false}, {2, 4, 1, 371, 0x7ff, false}, {1, 0, 7, 8184, 0, false}, {4, 15, 0, 1, 0x3ff, false}, {3, 11, 6, 4095, 1, false}}
 	type fill struct {
 		name string
 		f    func(i, n int) byte
@@ -534,6 +666,55 @@ func checkAACEntry(c entryCase) *harness.Fail {
 	return nil
 }
 
+// checkEntryBox: an mp4a sample entry built around the reference AudioSpecificConfig bytes with the box
+// constructors, encoded and decoded as a box: the decoder specific info is carried unchanged and decodes
+// to the configuration.
+func checkEntryBox(c ascCase) *harness.Fail {
+	asc := refASC(c)
+	rate := uint16(0)
+	if c.Freq <= 0xffff {
+		rate = uint16(c.Freq)
+	}
+	entry := mp4.CreateAudioSampleEntryBox("mp4a", uint16(c.Channels), 16, rate, mp4.CreateEsdsBox(append([]byte{}, asc...)))
+	buf := bytes.Buffer{}
+	if err := entry.Encode(&buf); err != nil {
+		return harness.Failf("C18|aacentrybox|encode-error", "%+v: %v", c, err)
+	}
+	if uint64(buf.Len()) != entry.Size() {
+		return harness.Failf("C18|aacentrybox|size", "Size() %d, encoded %d bytes", entry.Size(), buf.Len())
+	}
+	box, err := mp4.DecodeBox(0, bytes.NewReader(buf.Bytes()))
+	if err != nil {
+		return harness.Failf("C18|aacentrybox|decode-error", "%+v (%x): %v", c, buf.Bytes(), err)
+	}
+	got, ok := box.(*mp4.AudioSampleEntryBox)
+	if !ok || got.Esds == nil {
+		return harness.Failf("C18|aacentrybox|no-mp4a-esds", "decoded %T", box)
+	}
+	dsi := got.Esds.DecConfigDescriptor.DecSpecificInfo
+	if dsi == nil {
+		return harness.Failf("C18|aacentrybox|no-decspecificinfo", "no DecSpecificInfo")
+	}
+	if !bytes.Equal(dsi.DecConfig, asc) {
+		return harness.Failf("C18|aacentrybox|asc-bytes", "%+v: DecConfig %x, written %x", c, dsi.DecConfig, asc)
+	}
+	conf, err := aac.DecodeAudioSpecificConfig(bytes.NewReader(dsi.DecConfig))
+	if err != nil {
+		return harness.Failf("C18|aacentrybox|asc-decode-error", "%x: %v", dsi.DecConfig, err)
+	}
+	if w := c.config(); *conf != w {
+		return harness.Failf("C18|aacentrybox|config-mismatch", "%x: decoded config %+v, want %+v", asc, *conf, w)
+	}
+	if got.ChannelCount != uint16(c.Channels) || got.SampleRate != rate || got.SampleSize != 16 {
+		return harness.Failf("C18|aacentrybox|entry-fields", "channels %d rate %d size %d, want %d %d 16", got.ChannelCount, got.SampleRate, got.SampleSize, c.Channels, rate)
+	}
+	again := bytes.Buffer{}
+	if err := got.Encode(&again); err != nil || !bytes.Equal(again.Bytes(), buf.Bytes()) {
+		return harness.Failf("C18|aacentrybox|re-encoding differs", "err %v: %x vs %x", err, again.Bytes(), buf.Bytes())
+	}
+	return nil
+}
+
 func TestAACEntry(t *testing.T) {
 	idx := 0
 	freqs := append([]int{}, tableFreqs...)
@@ -557,4 +738,24 @@ func TestAACEntry(t *testing.T) {
 		}
 	}
 	harness.Rec.Exhaustive("AAC sample entry: {2,5,29} x 13 table frequencies + 10 explicit")
+	// every configuration of the TestASC boundary enumeration through the box constructors
+	bad := 0
+	var n [3]int64
+	forEachBoundaryASC(boundaryFreqs(), func(c ascCase) {
+		idx++
+		if idx%harness.E.NShards != harness.E.Shard || bad > 3 {
+			return
+		}
+		n[map[byte]int{2: 0, 5: 1, 29: 2}[c.ObjectType]]++
+		if harness.Rec.WantSample() && idx%9973 == 7 {
+			harness.Rec.Sample(map[string]interface{}{"kind": "aacentrybox", "case": c, "asc": fmt.Sprintf("%x", refASC(c))})
+		}
+		if harness.ReportDirect(t, "aacentrybox", c, harness.Guarded(func() *harness.Fail { return checkEntryBox(c) })) {
+			bad++
+		}
+	})
+	for i, ot := range []int{2, 5, 29} {
+		harness.Rec.BulkDistinct(n[i], n[i], fmt.Sprintf("aacentrybox-aot%d", ot))
+	}
+	harness.Rec.Exhaustive("AAC sample entry boxes: CreateEsdsBox/CreateAudioSampleEntryBox over the ASC boundary enumeration")
 }
